@@ -31,4 +31,9 @@ garbage -/
 def noopHunkless (f : PFilePatch) : Bool :=
   f.hunks.isEmpty && !f.rename && f.oldPerm.isNone && f.newPerm.isNone && (f.oldHash.isNone || f.newHash.isNone)
 
+/-- known finding `dev-null-named-file`: a real file name that *becomes* `/dev/null` only after
+stripping (raw `/dev/null/`, `/dev/null/.` with strip 0) is written as `/dev/null` and read back as
+"no file" -/
+def nullNamed (f : PFilePatch) : Bool := f.old == some nullFilename || f.new == some nullFilename
+
 end RQ.Write
